@@ -28,6 +28,8 @@ def canonical_docs(ctx: fw.Ctx, n_random: int):
         if info.get("class") == "editable" and t not in seen:
             seen.add(t)
             texts.append((t, info))
+    texts += [("# c\n{\n  a = 1;\n}\n", {"wrapper": "bare", "class": "editable"}),
+              ("{ pkgs }:\n# c\n{\n  a = 1;\n  b = 2;\n}\n", {"wrapper": "lambda-formals", "class": "editable"})]
     for t, info in texts:
         root = cstread.ts_parse(t)
         if root.has_error or cstread.find_target(root) is None:
@@ -107,6 +109,10 @@ def observe_doc(ctx, text, info, tree, hists):
     key0 = {"wrapper": wrapper}
     # 1. idempotence
     cand = [(render_path(p), "7") for p, _ in leaves[:3]] + [("zz", "7"), ("zz.k", '"s"'), ("@zz", "7")]
+    # a VALUE that is itself a name bound in the set: the second application sees a reference
+    names_in_set = [k for k in tree if isinstance(k, str) and k.isidentifier()]
+    if len(leaves) >= 2 and names_in_set:
+        cand.append((render_path(leaves[0][0]), names_in_set[-1]))
     for p, v in cand:
         op = ("set", p, v)
         t1, e1 = try_apply(text, op)
@@ -115,7 +121,8 @@ def observe_doc(ctx, text, info, tree, hists):
         t2, e2 = try_apply(t1, op)
         hists.append(ec.run_real(text, [op, op], dict(info, law="idem")))
         if t2 != t1:
-            ctx.fail({"clause": "idempotence", **key0, "path": ep.shape_of_path(p)},
+            ctx.fail({"clause": "idempotence", **key0, "path": ep.shape_of_path(p),
+                      "value": "identifier" if is_ident_leaf(v) else "other"},
                      {"doc": text, "ops": [list(op), list(op)], "once": t1, "twice": t2},
                      f"set {p!r} {v!r} twice on {text!r}: {t1!r} then {t2!r} (error {e2})")
     # 2. set fresh then rm restores the text
@@ -130,6 +137,8 @@ def observe_doc(ctx, text, info, tree, hists):
         hists.append(ec.run_real(text, [op, ("rm", p)], dict(info, law="set-rm")))
         if t2 != text:
             via = "call-argument" if wrapper in ("call", "call-select", "lambda-call") and p.startswith("@") else "other"
+            if via == "other" and p.startswith("@") and leading_comment_before_target(text):
+                via = "comment-before-target"
             ctx.fail({"clause": "set-rm-restores", **key0, "scoped": p.startswith("@"), "via": via},
                      {"doc": text, "ops": [list(op), ["rm", p]], "after_set": t1, "after_rm": t2},
                      f"set {p!r} then rm on {text!r} gives {t2!r} (error {e2})")
@@ -167,6 +176,16 @@ def observe_doc(ctx, text, info, tree, hists):
             if ab2 != ba2:
                 ctx.fail({"clause": "commute", **key0}, {"doc": text, "ops": [list(a), list(b)], "ab": ab2, "ba": ba2},
                          f"{a!r};{b!r} gives {ab2!r} but the other order gives {ba2!r}")
+
+
+def leading_comment_before_target(text: str) -> bool:
+    """is there a comment directly before the target set (so that `target.before` is not empty)?"""
+    root = cstread.ts_parse(text)
+    tgt = cstread.find_target(root)
+    if tgt is None:
+        return False
+    prev = tgt.prev_sibling
+    return prev is not None and prev.type == "comment"
 
 
 def search(ctx: fw.Ctx):
